@@ -28,7 +28,7 @@ func init() {
 	})
 }
 
-const prelude = `oo := {v: 1, f: m{|x| "uf".p; x}, bad: m{"ub".p; raise ValueErr.new("vm")}, w: m{{v: 2}}, err1: m{1.try.{|n| raise TypeErr.new("captured")}.err}}
+const prelude = `oo := {v: 1, f: m{|x| "uf".p; x}, bad: m{"ub".p; raise ValueErr.new("vm")}, w: m{{v: 2}}, err1: m{1.try.{|n| raise TypeErr.new("captured")}.err}, kw: m{|a, k: 0| "uk".p; raise ValueErr.new("kbig") if k > 5; a + k}}
 idf := {|x| "vc".p; x}
 ew := 1.try./(0).err
 `
@@ -50,6 +50,8 @@ func alphabet() []step {
 		// a step that SUCCEEDS and returns an error object (an ordinary value); steps returning Either values are not
 		// generated: later steps of the plain chain would then run on an Either, which is no plain baseline
 		{Src: `.{|x| "s".p; ew}`}, {Src: `.{|x| "s".p; [ew]}`}, {Src: ".err1", Obj: true},
+		// steps with keyword arguments (they must reach the callee)
+		{Src: ".kw(1, k: 2)", Obj: true}, {Src: ".kw(1, k: 10)", Obj: true}, {Src: ".kw(1)", Obj: true}, {Src: `.split(sep: ",")`}, {Src: `.join(sep: "-")`},
 	}
 	for i, k := range errKinds {
 		a = append(a, step{Src: fmt.Sprintf(`.{|x| "s".p; raise %s.new("m%d")}`, k, i)})
